@@ -80,6 +80,11 @@ def writers(ctx, o, eff):
                     o.site(f, w.node, f"{f.name}: {src(w.node)[:40]}")
                 else:
                     o.refute(f, w.node, w.node, f"the owner pointer is written in {f.qual}, outside _attach/_detach")
+    for nm in ('_attach', '_detach'):
+        e = prog.funcs.get('task.Task.' + nm)
+        wk = _owner_worker(prog, e, eff)[0] if e is not None else None
+        if wk is not None:
+            o.site(e, e.node, f"{nm} stores the owner" + ("" if wk is e else f" through {wk.name}"))
     init = prog.func('wbs.WBS.__init__')
     if any(match("self._WBS__root._attach(self)", n) for n in ast.walk(init.node)):
         o.site(init, init.node, "root task attached to the new WBS")
